@@ -539,6 +539,18 @@ impl TimeZoneDatabase {
         }
     }
 
+    /// Sets the time-to-live used by the caches of this database (only the
+    /// zoneinfo directory database has caches with a time-to-live that can
+    /// be changed this way).
+    #[cfg(jiff_verif)]
+    #[doc(hidden)]
+    pub fn __verif_set_ttl(&self, ttl: core::time::Duration) {
+        let Some(inner) = self.inner.as_deref() else { return };
+        if let Kind::ZoneInfo(ref db) = *inner {
+            db.__verif_set_ttl(ttl);
+        }
+    }
+
     /// Returns true if it is known that this time zone database is empty.
     ///
     /// When this returns true, it is guaranteed that all
